@@ -8,14 +8,19 @@ package sortindex
 // that the file can hold (8 bytes per value), so a damaged count cannot make the
 // reader ask for memory the file does not justify; reading the header is
 // panic-free for every content (binary.Read fills the slice it is given and does not resize it: site assumption).  Checked by /verif/bin/govc.  Comment-only file.
+// (ghost siFileSize: the size the file reported when the count was checked)
+//@ ghostdecl siFileSize int
 //@ func readMetadata
 //@   props C18
 //@   requires file != nil
 //@   safe
 //@   site callret binary.Read #1:
 //@     assume len(version) == 1
+//@   ghostinit ghost(0, "siFileSize") == 0
+//@   site callret fileStat.Size #1:
+//@     ghostset ghost(0, "siFileSize") = result
 //@   site call make #2:
-//@     assert [offset-table-sized-by-a-count-the-file-can-hold] arg1 >= 0 && uint64(arg1) <= uint64(fileStat.Size()) / 8
+//@     assert [offset-table-sized-by-a-count-the-file-can-hold] arg1 >= 0 && uint64(arg1) <= uint64(ghost(0, "siFileSize")) / 8
 //@   ensures [a-read-header-comes-with-its-table] implies(result1 == nil, result0 != nil)
 //@ end
 
